@@ -153,10 +153,7 @@ namespace occa {
       buffer->malloc(alignedBytes);
       size = alignedBytes;
 
-      modeDevice->bytesAllocated += alignedBytes;
-      modeDevice->maxBytesAllocated = std::max(
-        modeDevice->maxBytesAllocated, modeDevice->bytesAllocated
-      );
+      modeDevice->addBytesAllocated(alignedBytes);
 
     } else {
       /*
@@ -169,10 +166,7 @@ namespace occa {
       modeDevice->removeMemoryRef(newBuffer);
       newBuffer->malloc(alignedBytes);
 
-      modeDevice->bytesAllocated += alignedBytes;
-      modeDevice->maxBytesAllocated = std::max(
-        modeDevice->maxBytesAllocated, modeDevice->bytesAllocated
-      );
+      modeDevice->addBytesAllocated(alignedBytes);
 
       /*
       Loop through the reservation list.
@@ -287,10 +281,7 @@ namespace occa {
       modeDevice->removeMemoryRef(newBuffer);
       newBuffer->malloc(newReserved);
 
-      modeDevice->bytesAllocated += newReserved;
-      modeDevice->maxBytesAllocated = std::max(
-        modeDevice->maxBytesAllocated, modeDevice->bytesAllocated
-      );
+      modeDevice->addBytesAllocated(newReserved);
 
       /*Loop through the reservation list and migrate to new alignment*/
       it = reservations.begin();
